@@ -3,7 +3,7 @@
    world reached by an ARBITRARY op sequence (new / backoff with any observed sleep / clone / fork /
    update-using-forked / reset / reset-max-sleep / cancel / kill), see Model.v. *)
 From Coq Require Import ZArith List Bool.
-From Verif Require Import Backoff.Model Backoff.ProofsBase Backoff.ProofsStep Backoff.ProofsInv Backoff.ProofsAcct Backoff.ProofsExt Backoff.ProofsCtx.
+From Verif Require Import Backoff.Model Backoff.ProofsBase Backoff.ProofsStep Backoff.ProofsInv Backoff.ProofsAcct Backoff.ProofsExt Backoff.ProofsCtx Backoff.ProofsWorker.
 Import ListNotations.
 Open Scope Z_scope.
 
@@ -209,6 +209,29 @@ Theorem C20_cancel_scope : forall e ops i b,
 Proof. exact cancel_scope. Qed.
 Print Assumptions C20_cancel_scope.
 
+(* The consumers' pattern (txnsnapshot.batchGetKeysByRegions, txnlock.checkAllSecondaries): fork the caller's back-offer,
+   clone the FORK once per further worker, let the workers back off (any interleaving, never on the caller's
+   back-offer), merge the worker k that finished last.  Whichever k in [fork .. last clone] that is, the caller ends with
+   exactly its accounting at the fork plus the sleeps logged for k.  (Cloning the CALLER instead makes the merge a no-op:
+   Example ex_clone_of_parent_not_merged.) *)
+Theorem C20_worker_pattern : forall e w i b n wops k,
+  nth_error (w_bos w) i = Some b -> b_live b = true ->
+  let j := length (w_bos w) in
+  Forall (worker_op i) wops -> (j <= k <= j + n)%nat ->
+  let w1 := fst (step e w (OFork i)) in
+  let w2 := run e w1 (repeat (OClone j) n) in
+  let w3 := fst (run_logi e w2 wops) in
+  let lg := for_idx k (snd (run_logi e w2 wops)) in
+  let w4 := fst (step e w3 (OMerge i k)) in
+  exists b4, nth_error (w_bos w4) i = Some b4 /\
+    b_total b4 = b_total b + sum_all lg /\
+    b_excl b4 = b_excl b + sum_if (is_excl e) lg /\
+    (forall nm, zget nm (b_sleep b4) = zget nm (b_sleep b) + sum_if (Z.eqb nm) lg /\
+                zget nm (b_times b4) = zget nm (b_times b) + cnt_if (Z.eqb nm) lg) /\
+    b_max b4 = b_max b.
+Proof. exact worker_pattern. Qed.
+Print Assumptions C20_worker_pattern.
+
 (* ---------- non-vacuity ---------- *)
 Definition ex_env := mkEnv [(4, 600000)] [6].
 Definition txnLock := mkCfg 1 2 100 3000 3 2.
@@ -261,3 +284,14 @@ Example ex_seterrors :
 Proof. vm_compute. reflexivity. Qed.
 Example ex_real_kinds_ok : forallb (cfg_okb [6]) [txnLock; regionMiss; busy] = true.
 Proof. vm_compute. reflexivity. Qed.
+(* worker pattern: fork 0 -> 1, clone of the FORK -> 2 sleeps 2 ms, merge 0 2: the caller gets the 2 ms *)
+Example ex_clone_of_fork_merged : exists b, nth_error (w_bos (run ex_env init_world
+    [ONewVars 1 10; ONew 400 1 0; OFork 0; OClone 1; OBackoff 2 regionMiss (-1) 1 2; OMerge 0 2])) 0 = Some b /\ b_total b = 2.
+Proof. eexists. vm_compute. repeat split. Qed.
+(* the same with a clone of the CALLER (parent chain of the clone does not contain the caller): the merge does nothing,
+   the worker's 2 ms never reach the caller *)
+Example ex_clone_of_parent_not_merged :
+  let w := run ex_env init_world [ONewVars 1 10; ONew 400 1 0; OFork 0; OClone 0; OBackoff 2 regionMiss (-1) 1 2] in
+  step ex_env w (OMerge 0 2) = (w, RNone) /\
+  (exists b, nth_error (w_bos w) 0 = Some b /\ b_total b = 0) /\ (exists f, nth_error (w_bos w) 2 = Some f /\ b_total f = 2 /\ b_parent f = None).
+Proof. vm_compute. repeat split; eexists; repeat split. Qed.
